@@ -43,6 +43,7 @@ var (
 	ErrPreBlockMissMatch    = errors.New("play block failed because pre-hash != latest_block")
 	ErrUnexpected           = errors.New("this is a unexpected error")
 	ErrInvalidAutogenTx     = errors.New("found invalid autogen-tx")
+	ErrInvalidCoinbaseTx    = errors.New("found invalid coinbase-tx")
 	ErrUTXODuplicated       = errors.New("found duplicated utxo in same tx")
 	ErrRWSetInvalid         = errors.New("RWSet of transaction invalid")
 	ErrACLNotEnough         = errors.New("ACL not enough")
@@ -1116,6 +1117,14 @@ func (t *State) procTodoBlkForWalk(todoBlocks []*pb.InternalBlock) (err error) {
 			tx = todoBlk.Transactions[idx]
 			showTxId = hex.EncodeToString(tx.Txid)
 			t.log.Debug("procTodoBlkForWalk", "txid", showTxId, "autogen", t.verifyAutogenTxValid(tx), "coinbase", tx.Coinbase)
+			// a tx flagged Autogen without tx inputs/outputs ext would skip both verifications below
+			if tx.Autogen && !t.verifyAutogenTxValid(tx) {
+				return fmt.Errorf("invalid autogen tx.txid:%s,err:%v", showTxId, ErrInvalidAutogenTx)
+			}
+			// an award tx only creates outputs, anything else in it would take effect unsigned
+			if tx.Coinbase && !isPlainAwardTx(tx) {
+				return fmt.Errorf("invalid coinbase tx.txid:%s,err:%v", showTxId, ErrInvalidCoinbaseTx)
+			}
 			// 校验定时交易合法性
 			if t.verifyAutogenTxValid(tx) && !tx.Coinbase {
 				// 校验auto tx
